@@ -61,12 +61,17 @@ def confinement_task(task):
         special = {"unit_risk_frame": AuxFrameV(dsl.fresh_ref("unit_risk_frame"))}
         args = [target] + [special.get(a, dsl.fresh_int(a)) for a in argnames[1:]]
         ex.inline.add("bt.algos._get_unit_risk")
+        want_kind = "read"
+        if task.get("windows"):
+            # C15: the estimation window of a risk-based weigher is exactly [now - lag - lookback, now - lag]
+            want_kind = "window"
+            ex.window_spec = lambda s, owner: (s.heap.get(owner, "now") - E.get(self, "lag") - E.get(self, "lookback"), s.heap.get(owner, "now") - E.get(self, "lag"))
         exits = ex.run_function(fi, st, self, args)
         obligs = []
         seen = set()
         for (s, oc) in exits:
             for o in s.obligs:
-                if id(o) not in seen and (o.kind == "read"):
+                if id(o) not in seen and (o.kind == want_kind):
                     seen.add(id(o))
                     obligs.append(o)
         out["paths"] = len(exits)
@@ -76,7 +81,7 @@ def confinement_task(task):
         n_ok = 0
         for o in obligs:
             r = prove(o, timeout_ms=20000)
-            d = dict(id=o.id.replace("bt.algos.", ""), kind="read", props=["C04"], verdict=r.verdict, backend=r.backend, secs=round(r.secs, 4), func=q)
+            d = dict(id=o.id.replace("bt.algos.", ""), kind=want_kind, props=["C15"] if task.get("windows") else ["C04"], verdict=r.verdict, backend=r.backend, secs=round(r.secs, 4), func=q)
             if r.verdict == "refuted":
                 d["model"] = model_to_dict(r.model) if r.model is not None else None
                 d["info"] = {k: str(v) for k, v in (o.info or {}).items()}
@@ -87,7 +92,10 @@ def confinement_task(task):
             if isinstance(n, ast.Attribute) and n.attr in ("loc", "iloc", "at", "iat", "ix"):
                 sites.append(n.lineno)
         missed = sorted(set(l for l in sites if l not in ex.visited_lines))
-        out["results"].append(dict(id="%s.%s/every-indexing-site-visited" % (cls, meth), kind="read", props=["C04"], verdict="proved" if not missed else "unknown", backend="ast-scan", secs=0.0, func=q,
+        if task.get("windows"):
+            out["results"].append(dict(id="%s.%s/takes-a-data-window" % (cls, meth), kind="window", props=["C15"], verdict="proved" if getattr(ex, "window_sites", 0) > 0 else "unknown", backend="ast-scan", secs=0.0, func=q,
+                                       reason=None if getattr(ex, "window_sites", 0) > 0 else "no universe.loc[lo:hi] window reached"))
+        out["results"].append(dict(id="%s.%s/every-indexing-site-visited" % (cls, meth), kind="read", props=["C15"] if task.get("windows") else ["C04"], verdict="proved" if not missed else "unknown", backend="ast-scan", secs=0.0, func=q,
                                    reason=("unvisited indexing sites at lines %s" % missed) if missed else None))
         out["samples"].append(dict(algo=cls, read_sites=sorted(set(ex.read_sites)), confinement_obligations=len(obligs), abstracted_statements=len(ex.abstracted)))
     except Exception as e:
@@ -174,3 +182,49 @@ def setup_clauses(task):
     out["abstracted_statements"] = len(ex.abstracted)
     out["samples"].append(dict(function=q, normal_exits=n_normal, abstracted=len(ex.abstracted)))
     return out
+
+
+TIME_MOVERS = {"shift", "tshift", "reindex", "reindex_like", "ffill", "bfill", "pad", "backfill", "fillna", "interpolate", "resample", "asfreq", "align", "rolling", "expanding", "ewm",
+               "diff", "pct_change", "cumsum", "cumprod", "cummax", "cummin", "combine_first", "merge", "merge_asof", "join", "update", "where", "mask", "replace", "sort_index", "sort_values",
+               "truncate", "last", "first", "tail", "head", "searchsorted", "asof", "set_index", "reset_index", "iloc", "loc", "at", "iat", "mean", "sum", "max", "min"}
+INSTALLER_OK = {"DataFrame", "Series", "concat", "copy", "equals", "DateOffset", "any", "duplicated", "tolist", "setup", "adjust", "_process_data", "set_commissions", "use_integer_positions", "pop", "get", "items", "keys", "values", "append", "format"}
+INSTALLERS = ("bt.core.StrategyBase.setup", "bt.core.SecurityBase.setup", "bt.core.CouponPayingSecurity.setup", "bt.backtest.Backtest._process_data", "bt.backtest.Backtest.__init__")
+
+
+def installer_scan(task):
+    """the functions that install the caller's frames into the tree (prices, bid/offer, coupons, holding costs, extra data)
+    store them date-for-date: no method that moves, fills or aggregates values along the date axis is applied, label/position
+    indexers are not used, and frames whose index differs from the price index are refused (raise) rather than aligned.
+    AST obligation, decided on the real source on every run; a method outside both lists leaves the obligation undecided."""
+    from pyvc.source import Program
+
+    prog = Program()
+    res = []
+    for q in INSTALLERS:
+        fn = prog.func(q).node
+        movers, unknown = [], []
+        for n in ast.walk(fn):
+            if isinstance(n, ast.Attribute) and n.attr in TIME_MOVERS:
+                movers.append("%s at line %d" % (ast.unparse(n)[:70], n.lineno))
+            elif isinstance(n, ast.Call) and isinstance(n.func, ast.Attribute) and n.func.attr not in INSTALLER_OK and n.func.attr not in TIME_MOVERS:
+                unknown.append("%s at line %d" % (ast.unparse(n.func)[:70], n.lineno))
+        name = q.split(".", 2)[-1]
+        verdict = "refuted" if movers else ("unknown" if unknown else "proved")
+        res.append(dict(id="%s/installs-input-frames-date-for-date" % name, kind="read", props=["C04"], verdict=verdict, backend="ast-scan", secs=0.0, func=q,
+                        model=dict(sites=movers) if movers else None, reason=("unclassified method(s): %s" % unknown) if (unknown and not movers) else None))
+    # guards: a bid/offer or coupon frame on a different index is refused (raise), never aligned
+    for q, fr in (("bt.core.SecurityBase.setup", "bidoffers"), ("bt.core.CouponPayingSecurity.setup", "coupons")):
+        fn = prog.func(q).node
+        name = q.split(".", 2)[-1]
+        ok = False
+        for n in ast.walk(fn):
+            if isinstance(n, ast.If):
+                t = ast.unparse(n.test)
+                if ("%s.index.equals(universe.index)" % fr) in t:
+                    neg = ("not self._%s.index.equals" % fr) in t or ("not %s.index.equals" % fr) in t
+                    mismatch = n.body if neg else n.orelse
+                    if any(isinstance(x, ast.Raise) for b in mismatch for x in ast.walk(b)):
+                        ok = True
+        res.append(dict(id="%s/%s-on-a-different-index-is-refused" % (name, fr), kind="read", props=["C04", "C10"], verdict="proved" if ok else "refuted", backend="ast-scan", secs=0.0, func=q,
+                        model=None if ok else dict(reason="no 'index.equals(universe.index)' guard that raises on mismatch")))
+    return dict(results=res, samples=[dict(installers=list(INSTALLERS))])
